@@ -325,7 +325,7 @@ def sec_classical(ctx, rng, case):
             if bits[a]:
                 bits[b], bits[c] = bits[c], bits[b]
             desc.append("CSWAP@%d,%d,%d" % (a, b, c))
-        elif kind == 5 and n >= 2:
+        elif kind == 5 and n >= 2 and rng.random() < 0.5:
             k = int(rng.integers(1, min(n, 3)))
             sel = [int(x) for x in rng.choice(n, size=k + 1, replace=False)]
             cv = [int(x) for x in rng.integers(0, 2, size=k)]
@@ -333,6 +333,31 @@ def sec_classical(ctx, rng, case):
             if all(bits[s] == v for s, v in zip(sel[:-1], cv)):
                 bits[sel[-1]] ^= 1
             desc.append("X@%d ctrl %s=%s" % (sel[-1], sel[:-1], cv))
+        elif kind == 5 and n >= 2:
+            # every documented form of control values: per-control alternatives (product of sums) and an explicit list of
+            # allowed control tuples (sum of products); the gate fires iff the control bits are one of the allowed tuples
+            k = int(rng.integers(1, min(n, 4)))
+            sel = [int(x) for x in rng.choice(n, size=k + 1, replace=False)]
+            ctrl, tgt = sel[:-1], sel[-1]
+            if rng.random() < 0.5:
+                pos = [[(0,), (1,), (0, 1)][int(rng.integers(3))] for _ in range(k)]
+                allowed = set(itertools.product(*pos))
+                cvs = cirq.ProductOfSums([tuple(p_) for p_ in pos])
+                label = "PoS%s" % pos
+            else:
+                all_t = list(itertools.product((0, 1), repeat=k))
+                m_ = int(rng.integers(1, len(all_t) + 1))
+                prods = [all_t[int(i)] for i in rng.choice(len(all_t), size=m_, replace=False)]
+                allowed = set(prods)
+                cvs = cirq.SumOfProducts([list(t_) for t_ in prods])
+                label = "SoP%s" % sorted(prods)
+            if rng.random() < 0.5:
+                ops.append(cirq.ControlledGate(cirq.X, num_controls=k, control_values=cvs).on(*[qubits[s] for s in ctrl], qubits[tgt]))
+            else:
+                ops.append(cirq.X(qubits[tgt]).controlled_by(*[qubits[s] for s in ctrl], control_values=cvs))
+            if tuple(bits[s] for s in ctrl) in allowed:
+                bits[tgt] ^= 1
+            desc.append("X@%d ctrl %s in %s" % (tgt, ctrl, label))
         elif kind == 6 and n >= 2:
             k = int(rng.integers(2, min(n, 4) + 1))
             sel = [int(x) for x in rng.choice(n, size=k, replace=False)]
